@@ -266,6 +266,21 @@ def e2e_job(include, exclude, mode):
     elif mode == "sarif":
         argv += ["--sarif", "{res:semgrep.sarif}"]
         results["semgrep.sarif"] = EMPTY_SARIF
+    elif mode == "sarif-other-tool":
+        # a valid SARIF file of a tool no codemod is written for: SARIF files are supplied, so tool codemods are eligible
+        argv += ["--sarif", "{res:bandit.sarif}"]
+        results["bandit.sarif"] = json.dumps({"version": "2.1.0", "runs": [{"tool": {"driver": {"name": "Bandit", "rules": []}}, "results": []}]}).encode()
+    elif mode == "hotspots-only":
+        # only hotspots, no issues file and no SARIF: find-and-fix codemods stay eligible
+        argv += ["--sonar-hotspots-json", "{res:hotspots.json}"]
+        results["hotspots.json"] = json.dumps({"hotspots": []}).encode()
+    elif mode == "defectdojo-only":
+        argv += ["--defectdojo-findings-json", "{res:dd.json}"]
+        results["dd.json"] = json.dumps({"results": []}).encode()
+    elif mode == "issues+hotspots":
+        argv += ["--sonar-issues-json", "{res:issues.json}", "--sonar-hotspots-json", "{res:hotspots.json}"]
+        results["issues.json"] = EMPTY_SONAR
+        results["hotspots.json"] = json.dumps({"hotspots": []}).encode()
     return drive.Job(files={"app.py": b"x = 1\n"}, argv=argv, results=results)
 
 
@@ -334,7 +349,7 @@ def _e2e_judge(obs, ids, include, exclude, mode):
     logged, reported = executed_sequence(obs)
     inc = csv_dedupe(include) if include else None
     exc = csv_dedupe(exclude) if exclude else None
-    sast = mode in ("sonar", "sarif")
+    sast = mode in ("sonar", "sarif", "sarif-other-tool", "issues+hotspots")
     bad = compare(logged, ids, inc, exc, sast)
     if bad:
         k, detail = bad
@@ -349,8 +364,10 @@ def _e2e_judge(obs, ids, include, exclude, mode):
 
 def e2e_configs(tier):
     cfgs = []
-    for mode in ("fix", "sonar", "sarif"):
+    for mode in ("fix", "sonar", "sarif", "sarif-other-tool", "hotspots-only", "defectdojo-only", "issues+hotspots"):
         cfgs.append((None, None, mode))
+    for mode in ("sarif-other-tool", "hotspots-only", "defectdojo-only"):
+        cfgs.append((None, ["sonar:python/url-sandbox"], mode))
     singles = TOKENS if tier == "thorough" else [t for t in TOKENS if t != "*"]
     for t in singles:
         cfgs.append(([t], None, "fix"))
